@@ -112,3 +112,14 @@ func BuildDIMap(identifiers []CodeDataStruct, identifierMap map[string]CodeDataS
 
 	return diMap
 }
+
+// WithInnerStructures lists the given types, each followed by its member types (and theirs): a member type is filed under
+// its enclosing type only, so a report builder that walks this list does not leave out what member types declare and call
+func WithInnerStructures(nodes []CodeDataStruct) []CodeDataStruct {
+	var all []CodeDataStruct
+	for _, node := range nodes {
+		all = append(all, node)
+		all = append(all, WithInnerStructures(node.InnerStructures)...)
+	}
+	return all
+}
